@@ -187,6 +187,7 @@ inductive Op where
   | setKey (k : Key) (v : T)              -- d[k] = v, l[i] = v (i < len), o.k = v
   | delKey (k : Key)                      -- del d[k]
   | append (v : T)
+  | extend (vs : List T)                  -- l.extend(vs) / l += vs: one batched notification
   | rebind (pairs : List (Path × T))      -- paths relative to the receiver
   | update (kvs : List (Key × T))         -- Dict.update: rebind with skip_notification=True
   | clear | reverse | popitem             -- mutators that notify nobody
@@ -204,6 +205,14 @@ def getAt : T → Path → Option T
     | none => none
     | some c => getAt c rest
 
+/-- The write primitive as the code runs it: write, then (if an update is produced) invalidate the
+memoised facts of the written node and of all its ancestors (`_invalidate_content_caches`). -/
+def writeReset (root : T) (parent : Path) (k : Key) (v : Option T) : Option (T × Option Update) :=
+  match writeAt root [] parent k v with
+  | none => none
+  | some (r', none) => some (r', none)
+  | some (r', some u) => some (resetChain r' parent, some u)
+
 /-- Apply the pairs in order (absolute paths = receiver path ++ relative path). -/
 def writeAll (root : T) (recv : Path) : List (Path × T) → List (Update × Path) → Option (T × List (Update × Path))
   | [], acc => some (root, acc)
@@ -212,7 +221,7 @@ def writeAll (root : T) (recv : Path) : List (Path × T) → List (Update × Pat
     | [] => none
     | k :: revParent =>
       let parent := recv ++ revParent.reverse
-      match writeAt root [] parent k (some v) with
+      match writeReset root parent k (some v) with
       | none => none
       | some (root', none) => writeAll root' recv rest acc
       | some (root', some u) => writeAll root' recv rest (acc ++ [(u, parent)])
@@ -239,41 +248,52 @@ def rawPopitem : T → T
   | .leaf a => .leaf a
   | .node m k items => .node m k items.dropLast
 
-/-- Finish a call: deliver and reset when notification is on; when it is off / skipped nothing is
-delivered, and the caches are reset only if `resetSilent` (rebind path of the patched source). -/
-def finish (root' : T) (ups : List (Update × Path)) (notify resetSilent : Bool) : Out :=
+/-- Finish a call: when notification is on (and something was updated) deliver the events;
+`_notify_field_updates` also resets the memoised facts of every node it visits. -/
+def finish (root' : T) (ups : List (Update × Path)) (notify : Bool) : Out :=
   if notify && !ups.isEmpty then
     { tree := resetAll root' ups, ok := true, events := notifications root' ups }
-  else if resetSilent then { tree := resetAll root' ups, ok := true, events := [] }
   else { tree := root', ok := true, events := [] }
 
 inductive OpKind where
-  | setKey | delKey | append | rebind | update | clear | reverse | popitem
+  | setKey | delKey | append | extend | rebind | update | clear | reverse | popitem
   deriving DecidableEq, Repr
 
 def Op.kind : Op → OpKind
-  | .setKey _ _ => .setKey | .delKey _ => .delKey | .append _ => .append | .rebind _ => .rebind
+  | .setKey _ _ => .setKey | .delKey _ => .delKey | .append _ => .append | .extend _ => .extend
+  | .rebind _ => .rebind
   | .update _ => .update | .clear => .clear | .reverse => .reverse | .popitem => .popitem
 
-/-- One public call on the node at `recv`, inside `notify_on_change(notifyOn)`. `ros`: does
-`sym_rebind` reset the caches when it skips the notification (extracted from the source). -/
-def step (ros : Bool) (root : T) (recv : Path) (notifyOn : Bool) : Op → Out
+/-- A mutator that goes around the write primitive (`clear`, `reverse`, `popitem`): raw change of
+the receiver, invalidation of its chain, nobody is notified. -/
+def rawStep (g : T → T) (root : T) (recv : Path) : Out :=
+  { tree := resetChain (mapAt g root recv) recv, ok := true, events := [] }
+
+/-- One public call on the node at `recv`, inside `notify_on_change(notifyOn)`. -/
+def step (root : T) (recv : Path) (notifyOn : Bool) : Op → Out
   | .setKey k v =>
-    match writeAt root [] recv k (some v) with
+    match writeReset root recv k (some v) with
     | none => { tree := root, ok := false, events := [] }
     | some (r', none) => { tree := r', ok := true, events := [] }
-    | some (r', some u) => finish r' [(u, recv)] notifyOn false
+    | some (r', some u) => finish r' [(u, recv)] notifyOn
   | .delKey k =>
-    match writeAt root [] recv k none with
+    match writeReset root recv k none with
     | none => { tree := root, ok := false, events := [] }
     | some (r', none) => { tree := r', ok := false, events := [] }       -- KeyError: absent key
-    | some (r', some u) => finish r' [(u, recv)] notifyOn false
+    | some (r', some u) => finish r' [(u, recv)] notifyOn
   | .append v =>
     match (getAt root recv) with
     | some (.node _ .list items) =>
-      match writeAt root [] recv (Key.i items.length) (some v) with
-      | some (r', some u) => finish r' [(u, recv)] notifyOn false
+      match writeReset root recv (Key.i items.length) (some v) with
+      | some (r', some u) => finish r' [(u, recv)] notifyOn
       | _ => { tree := root, ok := false, events := [] }
+    | _ => { tree := root, ok := false, events := [] }
+  | .extend vs =>
+    match (getAt root recv) with
+    | some (.node _ .list items) =>
+      match writeAll root recv ((List.range vs.length).zip vs |>.map fun (i, v) => ([Key.i (items.length + i)], v)) [] with
+      | none => { tree := root, ok := false, events := [] }
+      | some (r', ups) => finish r' ups notifyOn
     | _ => { tree := root, ok := false, events := [] }
   | .rebind pairs =>
     -- List._sym_rebind applies the pairs in descending path order and reports the updates in
@@ -282,18 +302,18 @@ def step (ros : Bool) (root : T) (recv : Path) (notifyOn : Bool) : Op → Out
     | some (.node _ .list _) =>
       match writeAll root recv pairs.reverse [] with
       | none => { tree := root, ok := false, events := [] }
-      | some (r', ups) => finish r' ups.reverse notifyOn ros
+      | some (r', ups) => finish r' ups.reverse notifyOn
     | _ =>
       match writeAll root recv pairs [] with
       | none => { tree := root, ok := false, events := [] }
-      | some (r', ups) => finish r' ups notifyOn ros
+      | some (r', ups) => finish r' ups notifyOn
   | .update kvs =>
     match writeAll root recv (kvs.map fun (k, v) => ([k], v)) [] with
     | none => { tree := root, ok := false, events := [] }
-    | some (r', ups) => finish r' ups false ros                          -- skip_notification=True
-  | .clear => { tree := mapAt rawClear root recv, ok := true, events := [] }
-  | .reverse => { tree := mapAt rawReverse root recv, ok := true, events := [] }
-  | .popitem => { tree := mapAt rawPopitem root recv, ok := true, events := [] }
+    | some (r', ups) => finish r' ups false                              -- skip_notification=True
+  | .clear => rawStep rawClear root recv
+  | .reverse => rawStep rawReverse root recv
+  | .popitem => rawStep rawPopitem root recv
 
 /-! ### derived state: reads -/
 
